@@ -43,6 +43,21 @@ Proof.
 Qed.
 Print Assumptions C08_only_once.
 
+(* ... and in any state whatever: an ask that is not pending -- a plain ask, or one already approved -- is never
+   approved, by anybody with anything ("plain asks can never be approved", "only while pending").  A Ready ask stays
+   Ready with the same approver for as long as it is on the book (C11_orders_evolve: class_evolves), so together the
+   two say that an ask is approved at most once in its life. *)
+Theorem C08_not_pending_never_approved : forall e st sender funds id base size a,
+  lookup id (st_asks st) = Some a -> a_class a <> Pending ->
+  exists t, execute FX e st sender funds (ApproveAsk id base size) = Refused t.
+Proof.
+  intros e st sender funds id base size a Hl Hnp.
+  destruct (execute FX e st sender funds (ApproveAsk id base size)) as [[st2 r2]|t] eqn:E; [|eauto].
+  exfalso. apply C08_approve_only_if in E as (c2 & a2 & _ & _ & _ & Hl2 & Hp & _).
+  rewrite Hl in Hl2. injection Hl2 as <-. exact (Hnp Hp).
+Qed.
+Print Assumptions C08_not_pending_never_approved.
+
 (* in every state reachable from an instantiation, by any history (fills, partial rejects, expiries, cancels,
    configuration changes, other orders), the approver-supplied amount recorded for an approved ask equals the
    ask's remaining size, in the contract's base denomination *)
